@@ -182,7 +182,7 @@ let hexlen h = if h = "-" then 0 else String.length h / 2
 let check_sep fails what t lo hi elo (sep_hex : string) (x : (string * string) list) pre (fw_impl : string) =
   let get k = try List.assoc (pre ^ k) x with Not_found -> "missing" in
   let fail m = fails := (what ^ ": " ^ m) :: !fails in
-  if sep_hex = "none" || sep_hex = "panic" then fail ("no separator returned (" ^ sep_hex ^ ")")
+  if sep_hex = "none" || sep_hex = "panic" then fail ("no separator returned [" ^ sep_hex ^ "]")
   else begin
     (match get "sv" with
      | "panic" -> fail "separator is not decodable by from_bytes (panic)"
@@ -195,8 +195,8 @@ let check_sep fails what t lo hi elo (sep_hex : string) (x : (string * string) l
           if vcompare t sv hi <> Lt then fail ("separator value " ^ svs ^ " does not sort below right")
         end);
     if get "reenc" <> "1" then fail "as_bytes(from_bytes(separator)) <> separator (not a valid encoding)";
-    (match get "cls" with "lt" | "eq" -> () | o -> fail ("Key::compare(left, separator) = " ^ o));
-    (match get "csr" with "lt" -> () | o -> fail ("Key::compare(separator, right) = " ^ o));
+    (match get "cls" with "lt" | "eq" -> () | o -> fail ("Key::compare(left, separator) is not Less/Equal [" ^ o ^ "]"));
+    (match get "csr" with "lt" -> () | o -> fail ("Key::compare(separator, right) is not Less [" ^ o ^ "]"));
     if hexlen sep_hex > hexlen elo then fail "separator longer than left";
     if pre = "b" && fw_impl <> "none" && hexlen sep_hex <> int_of_string fw_impl then
       fail "branch separator of a fixed width type does not have that width"
@@ -271,9 +271,9 @@ let () =
                   fail "encoding of a fixed width type does not have that width";
                 (* compare orders encodings exactly as the values order *)
                 let c = vcompare t a b in
-                if cab <> cmp_s c then fail (Printf.sprintf "Key::compare(a,b)=%s but the values order %s" cab (cmp_s c));
-                if cba <> cmp_s (vcompare t b a) then
-                  fail (Printf.sprintf "Key::compare(b,a)=%s but the values order %s" cba (cmp_s (vcompare t b a)));
+                if cab <> cmp_s c then fail (Printf.sprintf "Key::compare is not the order of the values [compare(a,b)=%s, values %s]" cab (cmp_s c))
+                else if cba <> cmp_s (vcompare t b a) then
+                  fail (Printf.sprintf "Key::compare is not the order of the values [compare(b,a)=%s, values %s]" cba (cmp_s (vcompare t b a)));
                 (* separators *)
                 (match c with
                  | Eq -> ()
@@ -287,7 +287,7 @@ let () =
                      if vcompare t m a = Gt || vcompare t m b = Gt then fail "min_encoded_key value is not the least value";
                      List.iter (fun k -> match (try List.assoc k x with Not_found -> "missing") with
                        | "lt" | "eq" -> ()
-                       | o -> fail ("Key::compare(min_encoded_key, value) = " ^ o)) ["mina"; "minb"]
+                       | o -> fail ("Key::compare(min_encoded_key, value) is not Less/Equal [" ^ o ^ "]")) ["mina"; "minb"]
                  | None -> ());
                 if !fails = [] then print_endline "ok" else print_endline ("FAIL " ^ String.concat "; " (List.rev !fails))
               end
